@@ -4,6 +4,7 @@ import NucleoVerif.Driver.Utf32
 import NucleoVerif.Driver.Pattern
 import NucleoVerif.Driver.Boxcar
 import NucleoVerif.Driver.Nucleo
+import NucleoVerif.Driver.ParSort
 /-! Model driver: one request per line on stdin, one answer per line on stdout.
 Answers: `ok` | `DIFF <what the model says>` | `ORACLE <violated clause>` | `bad-op`. -/
 open NucleoVerif NucleoVerif.Driver
@@ -24,6 +25,7 @@ def answer (line : String) : String :=
   | "B" :: _ => bLine ws
   | "L" :: _ => lLine ws
   | "H" :: _ => hLine ws
+  | "Q" :: _ => qLine ws
   | _ => "bad-op"
 
 partial def loop (h : IO.FS.Stream) (out : IO.FS.Stream) : IO Unit := do
